@@ -733,3 +733,78 @@ Proof.
   - intros r. destruct r; [apply text_ret|auto].
   - intros r h1 _ G1. destruct r; [apply dok_ret; exact G1|apply S8; assumption].
 Qed.
+
+Ltac head_cell F' h1 G1 w cw Hw :=
+  destruct (framed_cell F' h1 w G1 (or_introl eq_refl)) as [cw Hw].
+
+Lemma step_hkey : forall f, S_all f -> forall w F h, good F h -> parent_framed F h w ->
+  dok F (handle_key fixed (S f) w h).
+Proof.
+  intros f (_ & _ & S3 & _ & S5 & S6 & _) w F h G (c & Hw & Hpar). rewrite handle_key_F. cbn [v_events_asis fixed].
+  unfold bind at 1. rewrite (getw_run h w c Hw). destruct (negb (w_visible c)); [apply dok_ret; exact G|].
+  (* the frame takes its reference *)
+  rewrite (frame_ref_inline f). pose proof (good_push f F h w c G Hw Hpar) as Hpush.
+  destruct (frame_run f (OFrameRef w) h) as [u h1| |]; [|contradiction|exact I].
+  set (F' := idx w :: F) in *.
+  assert (Hin : In (idx w) F') by (left; reflexivity).
+  destruct (framed_cell F' h1 w Hpush Hin) as [c1 Hw1]. unfold bind at 1. rewrite (getw_run h1 w c1 Hw1).
+  assert (HI1 : hinv [] h1) by (destruct Hpush as (g & _ & HI & _); exact HI).
+  (* the input-stealing first child *)
+  eapply (dok_bind F' F).
+  { destruct (w_first c1) as [fc|] eqn:Hfc; [|apply dok_ret; exact Hpush].
+    destruct (hi_kids [] h1 HI1 w c1 Hw1) as (l & Hc & Hl). rewrite Hfc in Hc. inversion Hc as [|a cfc l' Hffc Hc']; subst.
+    assert (Hpfc : w_parent cfc = Some w).
+    { destruct (proj1 (Hl fc) (or_introl eq_refl)) as (ck & Hk & Hp). congruence. }
+    unfold bind at 1. rewrite (getw_run h1 fc cfc Hffc). destruct (w_steal cfc); [|apply dok_ret; exact Hpush].
+    eapply dok_bind; [apply S5; [exact Hpush|eapply child_parent_framed; eauto]|intro; apply text_ret|].
+    intros r h2 _ G2. apply dok_ret. exact G2. }
+  { intros rs. cbv zeta. destruct (fst rs).
+    - apply text_bind; [apply text_log_op|]. intros _. apply text_bind; [apply ktr_text; auto with ktr|]. intros _. apply text_ret.
+    - text_auto. }
+  intros rs h2 _ G2. cbv zeta. destruct (fst rs); [apply dok_pop_ret; exact G2|].
+  destruct (framed_cell F' h2 w G2 Hin) as [c2 Hw2]. unfold bind at 1. rewrite (getw_run h2 w c2 Hw2).
+  assert (HI2 : hinv [] h2) by (destruct G2 as (g & _ & HI & _); exact HI).
+  (* the focused child *)
+  eapply (dok_bind F' F).
+  { destruct (w_focus c2) as [fc|] eqn:Hfo; [|apply dok_ret; exact G2].
+    destruct (ptr_eqb (Some fc) (snd rs)); [apply dok_ret; exact G2|].
+    destruct (hi_focus [] h2 HI2 w c2 fc Hw2 (fun y => y) Hfo) as (cf & Hcf & Hpf).
+    apply S5; [exact G2|eapply child_parent_framed; eauto]. }
+  { intros r2. destruct r2; text_auto. }
+  intros r2 h3 _ G3. destruct r2; [apply dok_pop_ret; exact G3|].
+  destruct (framed_cell F' h3 w G3 Hin) as [c3 Hw3]. unfold bind at 1. rewrite (getw_run h3 w c3 Hw3).
+  (* the window's own handlers *)
+  eapply (dok_bind F' F); [apply S3; assumption| |].
+  { intros r3. destruct r3; text_auto. }
+  intros r3 h4 _ G4. destruct r3; [apply dok_pop_ret; exact G4|].
+  (* the other children, from a copy of the list *)
+  destruct (framed_cell F' h4 w G4 Hin) as [c4 Hw4].
+  assert (HI4 : hinv [] h4) by (destruct G4 as (g & _ & HI & _); exact HI).
+  unfold bind at 1. pose proof (copy_children_spec f h4 w c4 HI4 Hw4) as Hcc.
+  destruct (copy_children f w h4) as [kids h5| |]; [|contradiction|exact I]. destruct Hcc as [-> _].
+  eapply (dok_bind F' F); [apply S6; assumption| |].
+  { intros r4. text_auto. }
+  intros r4 h5 _ G5. apply dok_pop_ret. exact G5.
+Qed.
+
+Lemma step_hmouse : forall f, S_all f -> forall w t i u F h, good F h -> parent_framed F h w ->
+  dok F (handle_mouse fixed (S f) w t i u h).
+Proof.
+  intros f (_ & _ & _ & S4 & _ & _ & _ & S8 & _) w t i u F h G (c & Hw & Hpar). rewrite handle_mouse_F. cbn [v_events_asis fixed].
+  unfold bind at 1. rewrite (getw_run h w c Hw). destruct (negb (w_visible c)); [apply dok_ret; exact G|].
+  rewrite (frame_ref_inline f). pose proof (good_push f F h w c G Hw Hpar) as Hpush.
+  destruct (frame_run f (OFrameRef w) h) as [u0 h1| |]; [|contradiction|exact I].
+  set (F' := idx w :: F) in *.
+  assert (Hin : In (idx w) F') by (left; reflexivity).
+  destruct (framed_cell F' h1 w Hpush Hin) as [c1 Hw1].
+  assert (HI1 : hinv [] h1) by (destruct Hpush as (g & _ & HI & _); exact HI).
+  unfold bind at 1. pose proof (copy_children_spec f h1 w c1 HI1 Hw1) as Hcc.
+  destruct (copy_children f w h1) as [kids h2| |]; [|contradiction|exact I]. destruct Hcc as [-> _].
+  eapply (dok_bind F' F); [apply S8; assumption| |].
+  { intros r. destruct r; text_auto. }
+  intros r h2 _ G2. destruct r as [x|]; [apply dok_pop_ret; exact G2|].
+  destruct (framed_cell F' h2 w G2 Hin) as [c2 Hw2]. unfold bind at 1. rewrite (getw_run h2 w c2 Hw2).
+  eapply (dok_bind F' F); [apply S4; assumption| |].
+  { intros hr. text_auto. }
+  intros hr h3 _ G3. apply dok_pop_ret. exact G3.
+Qed.
